@@ -48,6 +48,23 @@ def make_table(case, rng):
     if fam == "strings":
         return rs.text_table(rng, kinds=["S", "S", "S", "i4"])
     if fam == "subarrays":
+        if rng.random() < .5:
+            # every field wider than one byte is a sub-array (a field's own dtype then reports no byte order, only its base
+            # does); strings and single bytes alongside; both byte orders
+            bo = str(rng.choice(["<", ">"]))
+            names = list(rs.FIELD_NAMES)
+            rng.shuffle(names)
+            descr = []
+            for i in range(int(rng.integers(1, 5))):
+                k = str(rng.choice(["i2", "i4", "i8", "u2", "u4", "f4", "f8", "S", "u1", "i1"]))
+                if k == "S":
+                    descr.append((names[i], "S%d" % int(rng.integers(1, 7))))
+                elif k in ("u1", "i1"):
+                    descr.append((names[i], "|" + k))
+                else:
+                    descr.append((names[i], bo + k, (int(rng.integers(1, 4)),) if rng.random() < .6 else (2, int(rng.integers(1, 3)))))
+            a = np.zeros(int(rng.choice([1, 2, 5])), dtype=descr)
+            return rs.fill_text(rng, a)
         a = rs.text_table(rng, nfields=int(rng.integers(1, 4)))
         return a
     if fam == "layout-of-fields":
